@@ -28,6 +28,7 @@ import (
 	"time"
 
 	"github.com/eclipse/paho.mqtt.golang/packets"
+	"github.com/megaease/easegress/pkg/util/ratelimiter"
 	"pgregory.net/rapid"
 )
 
@@ -76,6 +77,12 @@ type vfC15ClientSpec struct {
 	Packets [][]vfC15Sub // one SUBSCRIBE per element
 	Leaves  bool         // disconnects before the burst
 	Policy  vfC15Policy
+	// Takeover: pre-history of a persistent session. The client first connects with
+	// cleanSession=false, subscribes and receives a warm-up message; then a second connection with
+	// the same id and cleanSession=false takes over ("old-open": the first socket stays open,
+	// "old-closed": it is half-closed and torn down afterwards). The judged burst comes after that,
+	// eligible(c, m) refers to the second, live connection.
+	Takeover string
 }
 
 type vfC15Msg struct {
@@ -105,6 +112,9 @@ func (k vfC15Case) String() string {
 			}
 		}
 		fmt.Fprintf(&sb, "]%s", map[bool]string{true: " leaves", false: ""}[c.Leaves])
+		if c.Takeover != "" {
+			fmt.Fprintf(&sb, " persistent-session-takeover(%s)", c.Takeover)
+		}
 		if c.Policy.Kind != "" && c.Policy.Kind != "immediate" {
 			fmt.Fprintf(&sb, " %s", c.Policy)
 		}
@@ -181,6 +191,12 @@ func vfC15GenCase(rt *rapid.T, withPolicies bool) vfC15Case {
 			subs = subs[take:]
 		}
 		c.Leaves = n > 2 && rapid.IntRange(0, 9).Draw(rt, "leaves?") == 0
+		switch rapid.IntRange(0, 7).Draw(rt, "takeover?") {
+		case 0:
+			c.Takeover = "old-open"
+		case 1:
+			c.Takeover = "old-closed"
+		}
 		c.Policy = vfC15Policy{Kind: "immediate"}
 		if withPolicies {
 			switch rapid.IntRange(0, 5).Draw(rt, "policy") {
@@ -234,12 +250,15 @@ func vfC15Start(rt *rapid.T, k vfC15Case) *vfC15Run {
 		}
 	}()
 	for i, cs := range k.Clients {
-		c, err := rig.Dial(fmt.Sprintf("c%d", i))
+		cid := fmt.Sprintf("c%d", i)
+		c, err := rig.Dial(cid)
 		if err != nil {
 			vfC15Inconclusive(rt, "dial", err)
 		}
-		c.SetPolicy(cs.Policy.fn())
-		code, err := c.Connect(fmt.Sprintf("c%d", i), true)
+		if cs.Takeover == "" {
+			c.SetPolicy(cs.Policy.fn())
+		}
+		code, err := c.Connect(cid, cs.Takeover == "")
 		if err != nil || code != packets.Accepted {
 			vfC15Inconclusive(rt, "connect", fmt.Errorf("code=%d err=%v", code, err))
 		}
@@ -253,6 +272,46 @@ func vfC15Start(rt *rapid.T, k vfC15Case) *vfC15Run {
 			if err := c.Subscribe(fs, qs); err != nil {
 				vfC15Inconclusive(rt, "subscribe", err)
 			}
+		}
+		if cs.Takeover != "" {
+			// warm-up delivery to the first connection (QoS0, a topic its first filter matches)
+			warm := strings.NewReplacer("+", "a", "#", "a").Replace(cs.Packets[0][0].Filter)
+			if code := rig.Publish(warm, 0, fmt.Sprintf("warm%d", i)); code != 200 {
+				vfC15Inconclusive(rt, "http publish", fmt.Errorf("status %d", code))
+			}
+			if err := rig.FanoutBarrier(); err != nil {
+				vfC15Inconclusive(rt, "fan-out barrier", err)
+			}
+			if _, err := c.Ping(); err != nil {
+				vfC15Inconclusive(rt, "ping", err)
+			}
+			oldBroker := rig.registered(cid)
+			c2, err := rig.Dial(cid + "'")
+			if err != nil {
+				vfC15Inconclusive(rt, "dial", err)
+			}
+			c2.SetPolicy(cs.Policy.fn())
+			code, err := c2.Connect(cid, false)
+			if err != nil || code != packets.Accepted {
+				vfC15Inconclusive(rt, "takeover connect", fmt.Errorf("code=%d err=%v", code, err))
+			}
+			deadline := time.Now().Add(vfMqWait)
+			for oldBroker != nil && !oldBroker.disconnected() {
+				if time.Now().After(deadline) {
+					vfC15Inconclusive(rt, "takeover", fmt.Errorf("superseded connection never flagged as closed"))
+				}
+				time.Sleep(200 * time.Microsecond)
+			}
+			if cs.Takeover == "old-closed" {
+				c.HalfClose()
+				if !c.WaitEOF(vfMqWait) {
+					vfC15Inconclusive(rt, "takeover", fmt.Errorf("broker did not close the superseded connection of %s", cid))
+				}
+			}
+			if _, err := c2.Ping(); err != nil {
+				vfC15Inconclusive(rt, "ping after takeover", err)
+			}
+			c = c2
 		}
 		r.cl = append(r.cl, c)
 		r.live = append(r.live, true)
@@ -337,7 +396,7 @@ func (r *vfC15Run) checkDelivery(rt *rapid.T, vf *vfCollector) (mixed bool) {
 			continue
 		}
 		for _, e := range c.Publishes("") {
-			if !known[e.Payload] {
+			if !known[e.Payload] && !strings.HasPrefix(e.Payload, "warm") {
 				vf.Violation(rt, "unknown-publish-received", "c%d received %s which was never published\n%s", i, e, r.dump())
 			}
 		}
@@ -438,6 +497,9 @@ func vfC15CountClasses(vf *vfCollector, k vfC15Case) {
 	for i := range k.Clients {
 		if k.Clients[i].Leaves {
 			vf.Class("client-left-before-burst")
+		}
+		if k.Clients[i].Takeover != "" {
+			vf.Class("client-after-persistent-session-takeover:" + k.Clients[i].Takeover)
 		}
 		own := map[int]bool{}
 		for _, q := range k.subs(i) {
@@ -651,6 +713,15 @@ func TestVerifC15Puback(t *testing.T) {
 		n := rapid.IntRange(1, 3).Draw(rt, "nClients")
 		np := rapid.IntRange(1, 12).Draw(rt, "nPublishes")
 		withDownstream := rapid.Bool().Draw(rt, "downstreamTraffic")
+		// clientPublishLimit: rate publishes per period for every client; the period (3600 s) never
+		// ends by itself during a case, the harness starts a new one between rounds (see below)
+		rate := rapid.SampledFrom([]int{0, 0, 1, 2, 3}).Draw(rt, "publishLimit")
+		rounds := 0
+		if rate > 0 {
+			rounds = rapid.IntRange(1, 3).Draw(rt, "retransmitRounds")
+		} else {
+			rounds = rapid.IntRange(0, 1).Draw(rt, "retransmitRounds")
+		}
 		var pubs []vfC15Pub
 		for j := 0; j < np; j++ {
 			p := vfC15Pub{Client: rapid.IntRange(0, n-1).Draw(rt, "client"), QoS: byte(rapid.IntRange(0, 2).Draw(rt, "qos")),
@@ -674,9 +745,13 @@ func TestVerifC15Puback(t *testing.T) {
 		for _, p := range pubs {
 			desc = append(desc, p.String())
 		}
-		caseStr := fmt.Sprintf("clients=%d downstream=%v pubs=[%s]", n, withDownstream, strings.Join(desc, "; "))
+		caseStr := fmt.Sprintf("clients=%d downstream=%v publishLimit=%d retransmitRounds=%d pubs=[%s]", n, withDownstream, rate, rounds, strings.Join(desc, "; "))
 
-		rig, err := vfMqNewRig(nil)
+		var spec *Spec
+		if rate > 0 {
+			spec = &Spec{ClientPublishLimit: &RateLimit{RequestRate: rate, TimePeriod: 3600}}
+		}
+		rig, err := vfMqNewRig(spec)
 		if err != nil {
 			vfC15Inconclusive(rt, "start broker", err)
 		}
@@ -697,7 +772,8 @@ func TestVerifC15Puback(t *testing.T) {
 			}
 			cl = append(cl, c)
 		}
-		// send, gluing consecutive packets of one client into one write where drawn
+		// sent[i]: every QoS1 packet client i wrote, originals and retransmissions, in order
+		sent := make([][]vfC15Pub, n)
 		pendingBuf := map[int][]packets.ControlPacket{}
 		flush := func(i int) {
 			if len(pendingBuf[i]) > 0 {
@@ -707,81 +783,166 @@ func TestVerifC15Puback(t *testing.T) {
 				pendingBuf[i] = nil
 			}
 		}
-		for j, p := range pubs {
-			pendingBuf[p.Client] = append(pendingBuf[p.Client], vfMqPublishPacket(p.ID, p.Topic, p.QoS, p.Payload))
+		queue := func(p vfC15Pub, dup bool) {
+			pkt := vfMqPublishPacket(p.ID, p.Topic, p.QoS, p.Payload)
+			pkt.Dup = dup
+			pendingBuf[p.Client] = append(pendingBuf[p.Client], pkt)
+			if p.QoS == 1 {
+				sent[p.Client] = append(sent[p.Client], p)
+			}
 			if !p.Glue {
 				flush(p.Client)
 			}
-			if withDownstream && j%3 == 0 {
-				rig.Publish("a/b", j%2, fmt.Sprintf("down%d", j))
+		}
+		sync := func() bool {
+			for i := range cl {
+				flush(i)
 			}
-		}
-		for i := range cl {
-			flush(i)
-		}
-		if err := rig.FanoutBarrier(); err != nil {
-			vfC15Inconclusive(rt, "fan-out barrier", err)
-		}
-		for _, c := range cl {
-			if _, err := c.Ping(); err != nil {
-				if c.EOF() {
-					vf.Violation(rt, "publisher-connection-closed-by-broker", "%s closed by the broker\ncase: %s", c.Label, caseStr)
-					return
-				}
-				vfC15Inconclusive(rt, "ping", err)
+			if err := rig.FanoutBarrier(); err != nil {
+				vfC15Inconclusive(rt, "fan-out barrier", err)
 			}
-		}
-		q1total, dup := 0, false
-		for i, c := range cl {
-			var sentQ1 []vfC15Pub
-			seen := map[uint16]bool{}
-			for _, p := range pubs {
-				if p.Client == i && p.QoS == 1 {
-					sentQ1 = append(sentQ1, p)
-					if seen[p.ID] {
-						dup = true
+			for _, c := range cl {
+				if _, err := c.Ping(); err != nil {
+					if c.EOF() {
+						vf.Violation(rt, "publisher-connection-closed-by-broker", "%s closed by the broker\ncase: %s", c.Label, caseStr)
+						return false
 					}
-					seen[p.ID] = true
+					vfC15Inconclusive(rt, "ping", err)
 				}
 			}
-			q1total += len(sentQ1)
+			return true
+		}
+		acksOf := func(c *vfMqClient) []uint16 {
 			var acks []uint16
 			for _, e := range c.Events() {
 				if e.Kind == packets.Puback {
 					acks = append(acks, e.ID)
 				}
 			}
+			return acks
+		}
+		for j, p := range pubs {
+			queue(p, false)
+			if withDownstream && j%3 == 0 {
+				rig.Publish("a/b", j%2, fmt.Sprintf("down%d", j))
+			}
+		}
+		if !sync() {
+			return
+		}
+		// retransmission rounds: like an MQTT client, every connection sends again, with DUP=1 and
+		// the same packet id, each QoS1 PUBLISH it holds no PUBACK for
+		retransmitted := 0
+		for round := 0; round < rounds; round++ {
+			if rate > 0 && rapid.IntRange(0, 4).Draw(rt, "newLimiterPeriod?") > 0 {
+				// a new limiter period begins (what the passing of timePeriod does)
+				for i := range cl {
+					if bc := rig.registered(cl[i].CID); bc != nil && bc.publishLimit.requestLimiter != nil {
+						bc.publishLimit.requestLimiter.SetState(ratelimiter.StateDisabled)
+						bc.publishLimit.requestLimiter.SetState(ratelimiter.StateNormal)
+					}
+				}
+			}
+			reverse := rapid.Bool().Draw(rt, "retransmitNewestFirst")
+			for i, c := range cl {
+				open := map[uint16]int{}
+				last := map[uint16]vfC15Pub{}
+				var order []uint16
+				for _, p := range sent[i] {
+					if _, ok := last[p.ID]; !ok {
+						order = append(order, p.ID)
+					}
+					open[p.ID]++
+					last[p.ID] = p
+				}
+				for _, id := range acksOf(c) {
+					open[id]--
+				}
+				if reverse {
+					for a, b := 0, len(order)-1; a < b; a, b = a+1, b-1 {
+						order[a], order[b] = order[b], order[a]
+					}
+				}
+				for _, id := range order {
+					if open[id] > 0 {
+						p := last[id]
+						p.Glue = rapid.Bool().Draw(rt, "glue")
+						queue(p, true)
+						retransmitted++
+					}
+				}
+			}
+			if !sync() {
+				return
+			}
+		}
+
+		q1total, dup, limited, retransAcked := 0, false, 0, 0
+		for i, c := range cl {
+			seen := map[uint16]bool{}
+			for _, p := range sent[i] {
+				if seen[p.ID] {
+					dup = true
+				}
+				seen[p.ID] = true
+			}
+			q1total += len(sent[i])
+			acks := acksOf(c)
+			fmtPub := func(id uint16, topic, payload string) string {
+				return fmt.Sprintf("q1 id=%d %s %q", id, topic, payload)
+			}
+			var want []string
+			for _, p := range sent[i] {
+				want = append(want, fmtPub(p.ID, p.Topic, p.Payload))
+			}
+			// handed: what the backend pipeline saw of this client, as packets
+			var handed []vfC15Pub
 			var got []string
 			for _, e := range rig.rec.of(c.CID) {
 				if e.QoS == 1 {
-					got = append(got, fmt.Sprintf("q1 id=%d %s %q", e.ID, e.Topic, e.Payload))
+					handed = append(handed, vfC15Pub{ID: e.ID, Topic: e.Topic, Payload: e.Payload, Drop: strings.HasPrefix(e.Payload, "DROP")})
+					got = append(got, fmtPub(e.ID, e.Topic, e.Payload))
 				}
 			}
-			var want []string
-			for _, p := range sentQ1 {
-				want = append(want, fmt.Sprintf("q1 id=%d %s %q", p.ID, p.Topic, p.Payload))
+			// every hand-over is one of the packets sent, in order, each packet at most once; without a
+			// limiter every packet is handed over
+			k := 0
+			for _, h := range got {
+				for k < len(want) && want[k] != h {
+					k++
+				}
+				if k == len(want) {
+					vf.Violation(rt, "qos1-publish-not-handed-to-backend-exactly-once",
+						"c%d sent QoS1 %v, backend pipeline saw %v (not a subsequence)\ncase: %s", i, want, got, caseStr)
+					return
+				}
+				k++
 			}
-			if strings.Join(got, "|") != strings.Join(want, "|") {
+			if rate == 0 && len(got) != len(want) {
 				vf.Violation(rt, "qos1-publish-not-handed-to-backend-exactly-once",
 					"c%d sent QoS1 %v, backend pipeline saw %v\ncase: %s", i, want, got, caseStr)
 				return
 			}
-			if !vfC15AckMatch(sentQ1, acks) {
+			limited += len(want) - len(got)
+			// every PUBACK belongs to exactly one hand-over, in order; a packet the limiter dropped
+			// gets neither; a packet the pipeline dropped may or may not be acknowledged
+			if !vfC15AckMatch(handed, acks) {
 				key := "puback-id-mismatch"
 				need := 0
-				for _, p := range sentQ1 {
+				for _, p := range handed {
 					if !p.Drop {
 						need++
 					}
 				}
 				if len(acks) < need {
 					key = "puback-missing"
-				} else if len(acks) > len(sentQ1) {
-					key = "puback-unexpected"
+				} else if len(acks) > len(handed) {
+					key = "puback-without-backend-handover"
 				}
-				vf.Violation(rt, key, "c%d sent QoS1 %v, PUBACK ids received %v (in order)\ncase: %s\nlog: %s", i, want, acks, caseStr, vfMqFmtEvents(c.Events()))
+				vf.Violation(rt, key, "c%d sent QoS1 %v\nbackend pipeline saw %v\nPUBACK ids received %v (in order)\ncase: %s\nlog: %s", i, want, got, acks, caseStr, vfMqFmtEvents(c.Events()))
 				return
 			}
+			retransAcked += len(acks)
 		}
 		vf.Class(fmt.Sprintf("qos1-publishes=%d", vfC15Bucket(q1total)))
 		if dup {
@@ -790,7 +951,20 @@ func TestVerifC15Puback(t *testing.T) {
 		if withDownstream {
 			vf.Class("interleaved-with-downstream-traffic")
 		}
-		vf.Case(q1total >= 2, "puback|"+caseStr, func() interface{} {
+		if rate > 0 {
+			vf.Class("publish-limiter-configured")
+			if limited > 0 {
+				vf.Class("publish-limiter-dropped-a-qos1-publish")
+			}
+		}
+		if retransmitted > 0 {
+			vf.Class("client-retransmitted-with-dup")
+		}
+		nontrivial := q1total >= 2 || (limited > 0 && retransmitted > 0)
+		if limited > 0 && retransmitted > 0 {
+			vf.Class("nontrivial:limiter-drop-followed-by-dup-retransmission")
+		}
+		vf.Case(nontrivial, "puback|"+caseStr, func() interface{} {
 			return map[string]interface{}{"test": "puback", "case": caseStr}
 		})
 	})
